@@ -386,6 +386,16 @@ pub fn core_build(keys: &LibKeys, nonce: &[u8], msg: &str, footer: Option<&str>,
     ($V:ident, $P:ident, assertion) => {{
       // both public ways of obtaining the core builder are exercised
       let mut b = if msg.len() % 2 == 0 { Paseto::<$V, $P>::builder() } else { Paseto::<$V, $P>::default() };
+      if msg.len() % 5 == 1 {
+        // a re-used builder: earlier values are replaced by the ones set last
+        b.set_payload(Payload::from("{\"decoy\":true}"));
+        if footer.is_some() {
+          b.set_footer(Footer::from("decoy-footer"));
+        }
+        if assertion.is_some() {
+          b.set_implicit_assertion(ImplicitAssertion::from("decoy-assertion"));
+        }
+      }
       b.set_payload(Payload::from(msg));
       if let Some(f) = footer {
         b.set_footer(Footer::from(f));
@@ -400,6 +410,12 @@ pub fn core_build(keys: &LibKeys, nonce: &[u8], msg: &str, footer: Option<&str>,
         return Err(LibErr::other("harness: v1/v2 take no implicit assertion"));
       }
       let mut b = if msg.len() % 2 == 0 { Paseto::<$V, $P>::builder() } else { Paseto::<$V, $P>::default() };
+      if msg.len() % 5 == 1 {
+        b.set_payload(Payload::from("{\"decoy\":true}"));
+        if footer.is_some() {
+          b.set_footer(Footer::from("decoy-footer"));
+        }
+      }
       b.set_payload(Payload::from(msg));
       if let Some(f) = footer {
         b.set_footer(Footer::from(f));
@@ -412,10 +428,12 @@ pub fn core_build(keys: &LibKeys, nonce: &[u8], msg: &str, footer: Option<&str>,
     LibKeys::V1L(k) => {
       let n = nonce32(nonce).ok_or_else(bad_nonce)?;
       let mut b = setup!(V1, Local, plain);
+      let mut b = if msg.len() % 3 == 0 { b.clone() } else { b };
       b.try_encrypt(k, &PasetoNonce::<V1, Local>::from(&n)).map_err(|e| paseto_err(&e))
     }
     LibKeys::V2L(k) => {
       let b = setup!(V2, Local, plain);
+      let b = if msg.len() % 3 == 0 { b.clone() } else { b };
       if nonce.len() == 24 {
         let n = nonce24(nonce).unwrap();
         b.try_encrypt(k, &PasetoNonce::<V2, Local>::from(&n)).map_err(|e| paseto_err(&e))
@@ -427,27 +445,33 @@ pub fn core_build(keys: &LibKeys, nonce: &[u8], msg: &str, footer: Option<&str>,
     LibKeys::V3L(k) => {
       let n = nonce32(nonce).ok_or_else(bad_nonce)?;
       let mut b = setup!(V3, Local, assertion);
+      let mut b = if msg.len() % 3 == 0 { b.clone() } else { b };
       b.try_encrypt(k, &PasetoNonce::<V3, Local>::from(&n)).map_err(|e| paseto_err(&e))
     }
     LibKeys::V4L(k) => {
       let n = nonce32(nonce).ok_or_else(bad_nonce)?;
       let mut b = setup!(V4, Local, assertion);
+      let mut b = if msg.len() % 3 == 0 { b.clone() } else { b };
       b.try_encrypt(k, &PasetoNonce::<V4, Local>::from(&n)).map_err(|e| paseto_err(&e))
     }
     LibKeys::V1P(sk, _) => {
       let mut b = setup!(V1, Public, plain);
+      let mut b = if msg.len() % 3 == 0 { b.clone() } else { b };
       b.try_sign(sk.as_ref().ok_or_else(no_secret)?).map_err(|e| paseto_err(&e))
     }
     LibKeys::V2P(sk, _) => {
       let mut b = setup!(V2, Public, plain);
+      let mut b = if msg.len() % 3 == 0 { b.clone() } else { b };
       b.try_sign(sk.as_ref().ok_or_else(no_secret)?).map_err(|e| paseto_err(&e))
     }
     LibKeys::V3P(sk, _) => {
       let mut b = setup!(V3, Public, assertion);
+      let mut b = if msg.len() % 3 == 0 { b.clone() } else { b };
       b.try_sign(sk.as_ref().ok_or_else(no_secret)?).map_err(|e| paseto_err(&e))
     }
     LibKeys::V4P(sk, _) => {
       let mut b = setup!(V4, Public, assertion);
+      let mut b = if msg.len() % 3 == 0 { b.clone() } else { b };
       b.try_sign(sk.as_ref().ok_or_else(no_secret)?).map_err(|e| paseto_err(&e))
     }
   }
